@@ -146,6 +146,9 @@ def _cases(draw):
         st_ = form["settings"]
         form["settings"] = {("id_string" if k == "form_id" else k): v for k, v in st_.items()}
         form["settings_header_extra"] = ["form_id"]
+    if form.get("settings") and g.p("_", 0.08):
+        # a second row on the settings sheet (a note, an older version of the settings): only the first row with content counts
+        form["settings_rows_extra"] = [{k: "old " + v for k, v in list(form["settings"].items())[: g.integer(1, 3)] if k not in ("default_language", "clean_text_values", "allow_choice_duplicates")}]
     if form.get("lists") and g.p("_", 0.12):
         form["choices_blank_at"] = g.integer(0, 50)
     if g.p("_", 0.12):
@@ -173,6 +176,17 @@ def evaluate(case) -> Outcome:
     kind = case.get("meta", {}).get("kind", "random")
     out.label("case:" + kind)
     status, res = common.run_form(form)
+    if form.get("settings_rows_extra"):
+        # only the first settings row with content is used: rows below it change neither the verdict nor the form, whatever
+        # warnings the first row earns (advisory only)
+        out.checked("C20.advisory-only")
+        twin = model.clone(form)
+        del twin["settings_rows_extra"]
+        s2, r2 = common.run_form(twin)
+        if s2 != status:
+            out.fail("C20.advisory-only", f"{s2}->{status}", f"without the extra settings row: {s2}; with it: {status}: {res if status != 'ok' else r2}")
+        elif status == "ok" and (r2.xform != res.xform or list(r2.warnings) != list(res.warnings)):
+            out.fail("C20.advisory-only", "result-differs", "a settings row below the first one changed the XForm or the warnings")
     if status == "crash":
         out.label("outcome:crash:" + crash_sig(res))
         return out
